@@ -675,3 +675,57 @@ def c19_r7(ctx):
                             '%s' % reached)
     ctx.ok('C19.R7', start, None, 'nominal rises read-only along %s'
            % reached)
+
+
+# ---------------------------------------------------------------------------
+
+def _c15_r8(ctx):
+    """(C15) the peak records are per assembly: Assembly.clone gives every
+    copy fresh peak containers (rule shared with C06.R1, clone ownership)."""
+    from . import c06
+    from ..resolve import Resolver
+    c06.r1(ctx.alias({'C06.R1': 'C15.R8'}), Resolver(ctx.repo))
+    ctx.min_instances('C15.R8', 20)
+
+
+EXTRA = {
+    'C03': [(c03_r8, 'R8 per-assembly power mesh, average and component '
+             'profiles come from the position\'s own user-power record')],
+    'C04': [(c04_r8, 'R8 the step criteria are evaluated with correlated '
+             'parameters of the evaluation temperature (material tracker '
+             'off inside calculate_min_dz)'),
+            (c05_r6, None)],
+    'C05': [(c05_r6, 'R6 adiabatic-wall selection of calculate_min_dz decided '
+             'over n_bypass x bypass flow x adiabatic (finite domain)')],
+    'C07': [(c07_r6, 'R6 masks of the 0-based pin adjacency arrays never '
+             'treat index 0 as "no neighbour"')],
+    'C08': [(c08_r8, 'R8 coolant edge / corner centroids are placed against '
+             'the innermost duct wall')],
+    'C09': [(c09_r7, 'R7 gap cell area from the cell\'s own perimeter share; '
+             'no fixed side index into per-side tables')],
+    'C10': [(c10_r6, 'R6 gap cell boundaries of a side depend on that side '
+             'only')],
+    'C11': [(c11_r8, 'R8 no in-place arithmetic through views of the '
+             'temperature state arrays')],
+    'C12': [(c12_r9, 'R9 with spacer grids every flow-split return comes '
+             'from the bundle-plus-grid iteration')],
+    'C13': [(c13_r7, 'R7 film correlation Nu = A Re^B Pr^C + D with Re and '
+             'Pr as separate arguments')],
+    'C15': [(_c15_r8, 'R8 clone ownership of the peak records (= C06.R1)')],
+    'C18': [(c18_r7, 'R7 user-power labels: required count is the largest '
+             'label; row-count and contiguity tests present')],
+    'C19': [(c19_r7, 'R7 the nominal temperature rises are read-only on their '
+             'way through hotspot.py (interprocedural alias/view tracking)')],
+}
+
+
+def extra(ctx, prop):
+    for fn, text in EXTRA.get(prop, []):
+        if prop == 'C04' and fn is c05_r6:
+            # the same finite-domain decision is a premise of C04 (which wall
+            # the criteria treat as adiabatic)
+            fn(ctx.alias({'C05.R6': 'C04.R8'}))
+            continue
+        fn(ctx)
+        if text:
+            ctx.decided.append(text)
